@@ -480,8 +480,19 @@ fn ambient_stage(ctx: &Ctx, kind: Kind) -> JobOut {
         let n = cfg.max_period();
         let len = 2 * n + n / 2 + 5;
         let alpha = roughen(&generic_alphabet(kind, false));
-        let stream: Vec<Op> = (0..len).map(|i| alpha[(i * 5 + i / 3) % alpha.len()]).collect();
-        let noise: Vec<Op> = (0..len).map(|i| alpha[(i * 3 + 1) % alpha.len()]).collect();
+        // second half of the stream in the subnormal range (x * 2^-1040): a change of the thread's
+        // floating-point mode (flush-to-zero) by some earlier call shows only there
+        let tiny = |op: &Op| -> Op {
+            let f = |x: f64| x * 2f64.powi(-1040);
+            match op {
+                Op::S(x) => Op::S(f(*x)),
+                Op::B(b) => Op::B(Bar { o: f(b.o), h: f(b.h), l: f(b.l), c: f(b.c), v: b.v }),
+                Op::Reset => Op::Reset,
+            }
+        };
+        let stream: Vec<Op> = (0..len).map(|i| alpha[(i * 5 + i / 3) % alpha.len()]).chain((0..len).map(|i| tiny(&alpha[(i * 7 + 2) % alpha.len()]))).collect();
+        let len = stream.len();
+        let noise: Vec<Op> = (0..len / 2).map(|i| alpha[(i * 3 + 1) % alpha.len()]).collect();
         let run = |c: &Cfg, ops: &[Op]| -> Vec<Out> {
             let mut s = make(c);
             ops.iter().map(|op| s.apply(op)).collect()
@@ -489,7 +500,16 @@ fn ambient_stage(ctx: &Ctx, kind: Kind) -> JobOut {
         let r = std::panic::catch_unwind(std::panic::AssertUnwindSafe(|| {
             let mut results: Vec<(&'static str, Vec<Out>)> = vec![];
             results.push(("first instance of its kind", run(&cfg, &stream)));
-            // disturbances: same parameters used past the wrap-around and dropped; other parameters kept alive
+            // disturbances: an unrelated RSI driven through a long flat market (its averages underflow to 0),
+            // same parameters used past the wrap-around and dropped; other parameters kept alive
+            {
+                let mut rsi = make(&Cfg::p1(Kind::Rsi, 1 + p % 3));
+                rsi.next_s(3.0);
+                rsi.next_s(4.5);
+                for _ in 0..1300 {
+                    rsi.next_s(4.5);
+                }
+            }
             let _ = run(&cfg, &noise);
             let _ = run(&cfg, &noise[..n + 1]);
             let mut alive = make(&other);
